@@ -105,7 +105,7 @@ def exec_c03(cfg, devs):
     p = Partial()
     dev = build_device(cfg)
     menu = ('once', 'dup', 'delay') + (('drop',) if cfg['resend'] else ())
-    ex = cfh.Exec(devs, dev, time_limit=60.0, reply_menu=menu, needs_resending=cfg['resend'], delay=0.25)
+    ex = cfh.Exec(devs, dev, time_limit=60.0, reply_menu=menu, needs_resending=cfg['resend'], delay=0.25, policy=cfg.get('policy'))
     def label_fn(h, payload):
         port, chan = (h >> 4) & 15, h & 3
         if chan == 0 and port in (2, 5) and payload[:1] in (b'\x00', b'\x02') and len(payload) > 3:
@@ -225,6 +225,10 @@ def configs_small():
                 tag = 'p%s%s' % (proto, '' if ver else 'nov')
                 out.append(_cfg('small:%s:l%dp%d:%s' % (tag, nl, np_, 'rs' if resend else 'rel'), proto, ver, nl, np_,
                                 style='long', resend=resend, mem=(nl == 2)))
+    for pol in ('handoff', 'eager'):
+        c = _cfg('small:p10:l2p3:rs:%s' % pol, 10, True, 2, 3, style='long', resend=True)
+        c['policy'] = pol
+        out.append(c)
     for cache in ('rw', 'ro'):
         out.append(_cfg('small:cache-%s' % cache, 10, True, 2, 3, cache=cache))
         out.append(_cfg('small:cache-%s-v1' % cache, 3, True, 2, 2, cache=cache))
